@@ -546,3 +546,40 @@ def c17(tier, seed):
     simple_validate("C17", v, scs, "all", "Trace_Contains")
     v.samples = [scs[0], scs[-1]]
     return v.finish()
+
+
+@prop("C20")
+def c20(tier, seed):
+    v = Verdicts("C20", tier, seed)
+    th = tier == "thorough"
+    v.rule = ("Gen_Builder: every PathBuilder call sequence of length <= LEN over 11 calls with lattice arguments (negative/zero rect "
+              "sizes) with a transform by hash (translations, scales, rotation, mirror, shear, singular, non-dyadic); arcs: 12 start "
+              "directions x 6 residual sweep angles x 0..5 quarter turns x both signs x 4 radii (incl. 0, beyond a full turn); "
+              "non-trivial = non-empty path / non-zero sweep")
+    v.trusted = ["harness projection to 1/1024 px and f64 sampling of the emitted quadratics (harness/src/pathfam.rs)"]
+    g, scs = gen_scenarios("C20", "Gen_Builder", env={"KIND": "builder", "LEN": 4 if th else 3}, timeout=1200)
+    v.add_tlc(g)
+    g, s2 = gen_scenarios("C20", "Gen_Builder", env={"KIND": "arc"}, timeout=1200)
+    v.add_tlc(g)
+    scs += s2
+    v.exhaustive = True
+    simple_validate("C20", v, scs, "all", "Trace_Builder", sigfn=lambda sc, tup: {"fam": sc["fam"], "what": tup[3]})
+    v.samples = [scs[5], scs[-1]]
+    return v.finish()
+
+
+@prop("C19")
+def c19(tier, seed):
+    v = Verdicts("C19", tier, seed)
+    th = tier == "thorough"
+    v.rule = ("Gen_Views: sizes 0..3 x 0..3, five constructors (new, from_vec exact/short/long, from_backing), initial pixels from a "
+              "boundary menu (premultiplied and alpha 0 with arbitrary colours), every sequence of <= DEPTH writes through the word "
+              "view (first/last pixel) and the byte view (bytes 0..3 and the last two); after the constructor and after each write the "
+              "word view, byte view and decoded PNG are recorded; non-trivial = non-empty surface")
+    v.trusted = ["harness: splitting of u32 words by shifts, png crate decoder (harness/src/views.rs)", "little-endian host (asserted by the harness build target)"]
+    g, scs = gen_scenarios("C19", "Gen_Views", env={"DEPTH": 3 if th else 2}, timeout=1500)
+    v.add_tlc(g)
+    v.exhaustive = True
+    simple_validate("C19", v, scs, "all", "Trace_Views", sigfn=lambda sc, tup: {"fam": "views", "what": tup[3]})
+    v.samples = [scs[3], scs[-1]]
+    return v.finish()
